@@ -377,3 +377,48 @@ func isBuiltinCall(c *ssa.CallCommon) bool {
 	_, ok := c.Value.(*ssa.Builtin)
 	return ok
 }
+
+
+// resolvedCallID looks through thin forwarding functions of the module: when the static callee's whole body is one
+// call whose result it returns (a method that only forwards to another function or to an interface method), the
+// identity of that inner call is returned instead. A refactor that inlines or introduces such a forwarder does not
+// change what is called.
+func resolvedCallID(c *ssa.CallCommon, depth int) funcID {
+	id := callID(c)
+	sc := c.StaticCallee()
+	if sc == nil || depth > 2 || sc.Blocks == nil || !strings.HasPrefix(id.pkg, modPath) {
+		return id
+	}
+	// straight-line body ending in `return K(...)` (or a lone call statement for functions without result); other
+	// calls may only build K's arguments
+	if len(sc.Blocks) > 2 { // entry (+ optional recover block)
+		return id
+	}
+	var inner *ssa.CallCommon
+	other := false
+	var calls []*ssa.Call
+	for _, in := range sc.Blocks[0].Instrs {
+		switch x := in.(type) {
+		case *ssa.Call:
+			calls = append(calls, x)
+		case *ssa.Go, *ssa.Defer, *ssa.Send, *ssa.Select, *ssa.MapUpdate, *ssa.If:
+			other = true
+		case *ssa.Return:
+			if len(x.Results) >= 1 {
+				if k, ok := x.Results[0].(*ssa.Call); ok {
+					inner = &k.Call
+				} else if ex, ok := x.Results[0].(*ssa.Extract); ok {
+					if k, ok := ex.Tuple.(*ssa.Call); ok {
+						inner = &k.Call
+					}
+				}
+			} else if len(calls) == 1 {
+				inner = &calls[0].Call
+			}
+		}
+	}
+	if other || inner == nil {
+		return id
+	}
+	return resolvedCallID(inner, depth+1)
+}
